@@ -53,44 +53,53 @@ def RNode.ofEntry (e : IndexEntry) : RNode :=
   { apath := e.apath, kind := e.kind, mtime := e.mtime, mtimeNanos := e.mtimeNanos,
     unixMode := e.unixMode, user := e.user, group := e.group, target := e.target }
 
-/-- The per-entry loop of `restore()`. -/
-def restoreEntries : List IndexEntry → Prog (List RNode)
-  | [] => pure []
-  | e :: es => do
+/-- Is `a` strictly below one of the symlinks restored so far (the root never counts)? -/
+def belowSymlink (syms : List Str) (a : Str) : Bool :=
+  syms.any fun p => p != [slash] && p != a && isPrefixOfImpl p a
+
+/-- The per-entry loop of `restore()`.  `syms` are the apaths of the symlinks restored so far:
+nothing is restored below one of them (it is reported instead). -/
+def restoreEntries : List Str → List IndexEntry → Prog (List RNode)
+  | _, [] => pure []
+  | syms, e :: es => do
+    if belowSymlink syms e.apath then
+      logError .invalidMetadata
+      restoreEntries syms es
+    else
     match e.kind with
     | .dir =>
       match entryTimeNs e.mtime e.mtimeNanos with
       | none => .panic "IndexEntry::mtime: Timestamp::new expect"
       | some _ =>
-        let rest ← restoreEntries es
+        let rest ← restoreEntries syms es
         pure (RNode.ofEntry e :: rest)
     | .file =>
       let (bytes, bad) ← readContent H e.addrs []
       match bad with
       | some (h, _) =>
         logError (.restoreFileBlock e.apath h)
-        let rest ← restoreEntries es
+        let rest ← restoreEntries syms es
         pure ({ RNode.ofEntry e with content := bytes, complete := false } :: rest)
       | none =>
         match entryTimeNs e.mtime e.mtimeNanos with
         | none => .panic "IndexEntry::mtime: Timestamp::new expect"
         | some _ =>
-          let rest ← restoreEntries es
+          let rest ← restoreEntries syms es
           pure ({ RNode.ofEntry e with content := bytes } :: rest)
     | .symlink =>
       match e.target with
       | none =>
         logError .invalidMetadata
-        restoreEntries es
+        restoreEntries syms es
       | some _ =>
         match entryTimeNs e.mtime e.mtimeNanos with
         | none => .panic "IndexEntry::mtime: Timestamp::new expect"
         | some _ =>
-          let rest ← restoreEntries es
+          let rest ← restoreEntries (e.apath :: syms) es
           pure (RNode.ofEntry e :: rest)
     | .unknown =>
       logError .invalidMetadata
-      restoreEntries es
+      restoreEntries syms es
 
 /-- `restore(archive, destination, options)` up to the filesystem. -/
 def restore (sel : BandSelection) (subtree : Str) (excl : Str → Bool) : Prog (List RNode) := do
@@ -98,7 +107,7 @@ def restore (sel : BandSelection) (subtree : Str) (excl : Str → Bool) : Prog (
   bandOpen b                                  -- StoredTree::open
   let _ ← listBlocks                          -- archive.block_dir()
   let es ← listEntries b subtree excl
-  restoreEntries H es
+  restoreEntries H [] es
 
 end
 
